@@ -8,6 +8,7 @@
 #include "filters/duplicatefilter.cpp"
 #include "filters/levelfilter.h"
 #include "attrhandlers/seqnumberattr.cpp"
+#include "filters/regexpfilter.cpp"
 using namespace QtLogger;
 
 #ifndef VF_N
@@ -130,5 +131,34 @@ extern "C" void h_seq_at_max()
     LogMessage m1(QtDebugMsg, g_ctx, QStringLiteral("a"));
     QVariantHash a1 = h.attributes(m1);
     vf_assert(a1.value(QStringLiteral("n")).toLongLong() == 2147483647LL, "seq at max: value is the current count");
+    vf_witness();
+}
+
+// regular-expression filter: passes iff the expression matches the message text -- for every message of a sequence
+// (a filter object must not carry state from one message to the next).  Oracles are hand-written predicates per expression.
+#ifndef VF_RX
+#define VF_RX 0
+#endif
+static bool ref_rx(int k, const QString &t)
+{
+    const int n = t.size();
+    switch (k) {
+    case 0: { bool r = false; for (int i = 0; i + 2 < n; ++i) if (t.at(i).unicode() == 'e' && t.at(i + 1).unicode() == 'r' && t.at(i + 2).unicode() == 'r') r = true; return r; }   // "err"
+    case 1: { bool nl = false; for (int i = 0; i < n; ++i) if (t.at(i).unicode() == '\n') nl = true; return n >= 2 && t.at(0).unicode() == 'a' && t.at(n - 1).unicode() == 'b' && !nl; }   // "^a.*b$"
+    case 2: return n == 0;                                    // "^$"
+    case 3: return true;                                      // ".*"
+    default: { bool r = false; for (int i = 0; i < n; ++i) if (t.at(i).unicode() == 'a') r = true; return r; }   // "a+b?"
+    }
+}
+extern "C" void h_regexp()
+{
+    static const char *const pats[] = { "err", "^a.*b$", "^$", ".*", "a+b?" };
+    RegExpFilter f(QString::fromLatin1(pats[VF_RX]));
+    static const unsigned short menu[] = { 'a', 'b', 'e', 'r', ' ', '\n' };
+    for (int i = 0; i < 2; ++i) {
+        QString text = vf_nondet_bool() ? QString() : vf_string_menu(3, menu, 6);
+        LogMessage msg(QtDebugMsg, g_ctx, text);
+        vf_assert(f.filter(msg) == ref_rx(VF_RX, text), "regexp filter passes iff the expression matches the message text");
+    }
     vf_witness();
 }
